@@ -41,7 +41,7 @@ func (g *typesGen) texpr(rank int, from string, self string, depth int, allowAny
 	r := g.r
 	cands := []tgType{}
 	for _, t := range g.types {
-		if t.rank <= rank {
+		if t.rank <= rank && (t.Pkg == from || t.Name[0] < 'a') {
 			cands = append(cands, t)
 		}
 	}
@@ -97,7 +97,7 @@ func (g *typesGen) newStruct(i int, rank int, name string) tgType {
 	if r.Chance(1, 3) {
 		emb := []tgType{}
 		for _, e := range g.types {
-			if e.Kind == "struct" && e.rank <= rank && e.Name != name {
+			if e.Kind == "struct" && e.rank <= rank && e.Name != name && (e.Pkg == pkg || e.Name[0] < 'a') {
 				emb = append(emb, e)
 			}
 		}
@@ -111,7 +111,11 @@ func (g *typesGen) newStruct(i int, rank int, name string) tgType {
 			if r.Chance(1, 3) {
 				ty = "*" + ty
 			}
-			t.Fields = append(t.Fields, pField{Type: ty, Embedded: true})
+			ef := pField{Type: ty, Embedded: true}
+			if r.Chance(1, 6) {
+				ef.Tag = `json:"-"` // an embedded field that is never emitted
+			}
+			t.Fields = append(t.Fields, ef)
 		}
 	}
 	nf := 1 + r.Intn(5)
@@ -176,7 +180,7 @@ func (t tgType) pType2() tgType { return t }
 
 func (g *typesGen) newEnum(rank int, name string) tgType {
 	r := g.r
-	base := rng.Pick(r, []string{"string", "string", "int", "int64", "uint8", "float64", "float32", "bool", "int32", "uint"})
+	base := rng.Pick(r, []string{"string", "string", "int", "int64", "uint8", "float64", "float32", "bool", "int32", "uint", "uint64"})
 	t := tgType{pType: pType{Kind: "enum", Name: name, Pkg: tgPkgs[rank], File: rng.Pick(r, []string{"types.go", "enums.go"}), Base: base}, rank: rank}
 	if r.Chance(1, 3) {
 		t.Doc = []string{name + " enumerates things"}
@@ -194,6 +198,8 @@ func (g *typesGen) newEnum(rank int, name string) tgType {
 			lit = []string{"true", "false"}[k]
 		case strings.HasPrefix(base, "float"):
 			lit = []string{"0.5", "1.25", "2"}[k]
+		case base == "uint64" || base == "uint":
+			lit = []string{"1", "9223372036854775808", "18446744073709551615"}[k] // at and above 2^63
 		case strings.HasPrefix(base, "uint"):
 			lit = fmt.Sprint(k + 1)
 		default:
@@ -240,6 +246,9 @@ func genTypesProject(r *rng.R) (pProject, []string) {
 		var t tgType
 		switch k := r.Intn(8); {
 		case k < 4:
+			if r.Chance(1, 8) {
+				name = strings.ToLower(name[:1]) + name[1:] // package-private: reachable only by embedding / fields in its own package
+			}
 			t = g.newStruct(i, rank, name)
 		case k < 6:
 			t = g.newEnum(rank, name)
@@ -280,7 +289,7 @@ func genTypesProject(r *rng.R) (pProject, []string) {
 				o := []tgType{}
 				for _, t := range g.types {
 					for _, k := range kinds {
-						if t.Kind == k && !(t.Kind == "alias" && strings.Contains(t.Base, ".")) {
+						if t.Kind == k && !(t.Kind == "alias" && strings.Contains(t.Base, ".")) && (t.Pkg == "ctl" || t.Name[0] < 'a') {
 							o = append(o, t)
 						}
 					}
